@@ -3,12 +3,12 @@
 use cgmath::prelude::*;
 use cgmath::{Matrix2, Matrix3, Matrix4, Point2, Point3, Transform, Vector2, Vector3, Vector4};
 
-use crate::conv::*;
-use crate::fw::{Case, Clause};
-use crate::gen::{self, Rng, Tier};
-use crate::model::*;
-use crate::sc::{Ck, Sc};
-use crate::{clause, clause_q};
+use cgv_core::conv::*;
+use cgv_core::fw::{Case, Clause};
+use cgv_core::gen::{self, Rng, Tier};
+use cgv_core::model::*;
+use cgv_core::sc::{Ck, Sc};
+use cgv_core::{clause, clause_q};
 
 fn new2<S: Sc>(a: M<S, 2>) -> Matrix2<S> {
     Matrix2::new(a[0][0], a[0][1], a[1][0], a[1][1])
@@ -370,7 +370,7 @@ fn xform<S: Sc>(case: &Case, ck: &mut Ck<S>) {
 /// The same layout / product clauses on the real scalar types, with small
 /// integer entries (every operation is exact in binary floating point, so bit
 /// equality with the integer model is a sound oracle).
-pub fn native_ints(cfg: &crate::fw::RunCfg, extra: &mut crate::fw::Extra) {
+pub fn native_ints(cfg: &cgv_core::fw::RunCfg, extra: &mut cgv_core::fw::Extra) {
     use serde_json::json;
     let n = if cfg.tier == Tier::Quick { 2000 } else { 100_000 };
     let mut seen = std::collections::HashSet::new();
